@@ -25,7 +25,7 @@ def work(job):
     from nsl import LinearIR
     out = []
     for ident, prog in items:
-        src = A.pp(prog)
+        src = prog if isinstance(prog, str) else A.pp(prog)
         for opt in (False, True):
             try:
                 with common.time_limit(120):
@@ -41,6 +41,18 @@ def work(job):
             for f in m["funcs"]:
                 out.append({"id": tag + "/" + f["name"], "fn": f, "table": table, "src": src, "opt": opt})
     return out
+
+
+# sources whose acceptance is doubtful (several functions of one name, exported and not, with different parameter counts; calls to
+# each of them): whatever the front end decides, a module it does produce has to be well-formed
+RAW = [
+    ("exported-overloads-arity", "export function f(int a) -> int\n{\n  return a + 1;\n}\nexport function f(int a, int b) -> int\n{\n  return a + b;\n}\nexport function g(int a) -> int\n{\n  return f(a) + f(a, 2);\n}\n"),
+    ("exported-overloads-arity-rev", "export function f(int a, int b) -> int\n{\n  return a + b;\n}\nexport function f(int a) -> int\n{\n  return a + 1;\n}\nexport function g(int a) -> int\n{\n  return f(a, 2) * f(a);\n}\n"),
+    ("exported-and-private-same-name", "function f(float a) -> int\n{\n  return 2;\n}\nexport function f(int a) -> int\n{\n  return a + 1;\n}\nexport function g(int a, float b) -> int\n{\n  return f(a) + f(b);\n}\n"),
+    ("private-overloads-arity", "function f(int a) -> int\n{\n  return a + 1;\n}\nfunction f(int a, int b) -> int\n{\n  return a + b;\n}\nfunction f(int a, int b, int c) -> int\n{\n  return a + b + c;\n}\nexport function g(int a) -> int\n{\n  return f(a) + f(a, 2) + f(a, 2, 3);\n}\n"),
+    ("call-literal-to-float-parameter", "function h(float x) -> float\n{\n  return x * 2.0;\n}\nfunction k(int p, int q) -> int\n{\n  return p * 10 + q;\n}\nexport function g(int a) -> float\n{\n  int t = a + 1;\n  return h(1) + k(t, a) + h(t);\n}\n"),
+    ("call-in-loop-with-forwarded-argument", "function k(int p) -> int\n{\n  return p + 1;\n}\nexport function g(int a) -> int\n{\n  int s = 0;\n  for (int i = 0; i < a; ++i)\n  {\n    int t = i * 2;\n    s = k(t) + k(s);\n  }\n  return s;\n}\n"),
+]
 
 
 def link_work(job):
@@ -96,7 +108,7 @@ def run(ctx, args):
     for i in range(n):
         g = nslgen.Gen(ctx.seed * 1000003 + i, FEATS[i % 2])
         gen.append((str(i), g.program()))
-    jobs = [("fam", fam[i:i + 60]) for i in range(0, len(fam), 60)] + [("gen", gen[i:i + 25]) for i in range(0, len(gen), 25)]
+    jobs = [("fam", fam[i:i + 60]) for i in range(0, len(fam), 60)] + [("gen", gen[i:i + 25]) for i in range(0, len(gen), 25)] + [("raw", RAW)]
     with mp.Pool(16) as pool:
         recs = [r for out in pool.map(work, jobs) for r in out]
         recs += [r for out in pool.map(link_work, [(str(ctx.scratch), False), (str(ctx.scratch), True)]) for r in out]
